@@ -870,16 +870,20 @@ object_t* object_present (svalue_t * v, object_t * ob) {
 
   if (ob->super)
     {
-      push_svalue (v);
-      ret = apply (APPLY_ID, ob->super, 1, ORIGIN_DRIVER);
+      object_t *env = ob->super;
 
-      if (ob->super->flags & O_DESTRUCTED)
+      push_svalue (v);
+      ret = apply (APPLY_ID, env, 1, ORIGIN_DRIVER);
+
+      /* id() is LPC code: the searching object may be gone (it has no environment
+       * then) or elsewhere by now, and so may the environment */
+      if ((env->flags & O_DESTRUCTED) || (ob->flags & O_DESTRUCTED) || ob->super != env)
         return 0;
 
       if (!IS_ZERO (ret))
-        return ob->super;
+        return env;
 
-      return object_present2 (v->u.string, ob->super->contains);
+      return object_present2 (v->u.string, env->contains);
     }
 
   return 0;
@@ -896,6 +900,7 @@ object_t* object_present (svalue_t * v, object_t * ob) {
  */
 static object_t* object_present2 (char *str, object_t * ob) {
 
+  object_t *next_ob;
   svalue_t *ret;
   char *p;
   size_t count = 0, length;
@@ -919,8 +924,11 @@ static object_t* object_present2 (char *str, object_t * ob) {
         }
     }
 
-  for (; ob; ob = ob->next_inv)
+  for (; ob; ob = next_ob)
     {
+      object_t *env = ob->super;
+
+      next_ob = ob->next_inv;
       p = new_string (length, "object_present2");
       memcpy (p, str, length);
       p[length] = 0;
@@ -930,6 +938,17 @@ static object_t* object_present2 (char *str, object_t * ob) {
 
       if (ob->flags & O_DESTRUCTED)
         return 0;
+
+      /* id() moved the object away: it is not present here any more, and its next_inv
+       * link leads through the inventory it went to. Go on with the neighbour it had,
+       * if that one is still here. */
+      if (ob->super != env)
+        {
+          if (next_ob && ((next_ob->flags & O_DESTRUCTED) || next_ob->super != env))
+            return 0;
+          continue;
+        }
+      next_ob = ob->next_inv;	/* still here: its own link is the one to trust */
 
       if (IS_ZERO (ret))
         continue;
